@@ -2,7 +2,8 @@
 
    case  = VL [ VN mode ; variant ; VN tol ; VL ops ; VL outs ]
      mode 0: the answers must be those of MemImpl in the given variant (the probed behaviour of the tree)
-     mode 1: the answers must be those of the Spec (used for linearization witnesses of concurrent runs)
+     mode 1: the answers must be those of the Spec (reference map; linearization witnesses of concurrent runs)
+     mode 2: the answers must be those of the Spec with Redis' "an empty list/hash does not exist" (Redis-flavoured reference)
    variant = VL [6 flags]  (Proofs/SideC13.flags order)
    key    = VB bytes
    scalar = VL [VN 0; VB b] | VL [VN 1; VN neg; VN abs] | VL [VN 2]
@@ -101,10 +102,24 @@ Definition out_matches (tol : N) (m : out) (o : oobs) : bool :=
 
 Definition NOW0 : N := 1000.
 
+(* mode 2: the Spec as a Redis server shows it — a list / hash that becomes empty ceases to exist (Exists is false,
+   its deadline is forgotten, the next Append / SetHash creates a new key).  Used to replay the harness' Redis-flavoured
+   reference; on histories in which no collection becomes empty it coincides with the Spec. *)
+Definition is_empty_collection (v : value) : bool :=
+  match v with VList [] => true | VHash [] => true | _ => false end.
+Definition drop_empty (s : kvmap) : kvmap :=
+  fun k => match s k with
+           | Some it => if is_empty_collection (val it) then None else Some it
+           | None => None
+           end.
+Definition redis_spec_step (s : kvmap) (now : N) (o : op) : out * kvmap * N :=
+  let '(r, s1, now1) := spec_step DefaultDataTTL_ms s now o in (r, drop_empty s1, now1).
+
 Definition model_outs (mode : N) (V : kvariant) (h : list op) : list out :=
   match mode with
   | 0 => outs_of (mem_run DefaultDataTTL_ms V empty NOW0 h)
-  | _ => outs_of (spec_run DefaultDataTTL_ms empty NOW0 h)
+  | 1 => outs_of (spec_run DefaultDataTTL_ms empty NOW0 h)
+  | _ => outs_of (run_with redis_spec_step empty NOW0 h)
   end.
 
 Definition check (v : tval) : bool :=
